@@ -160,6 +160,8 @@ def _c07_key(c, e):
 
 
 def _c08_key(c, e):
+    if c == 7:
+        return "outside-documented-grammar"
     if c == 1:
         return "parser-differs"
     if c == 3:
@@ -172,7 +174,7 @@ def part_filter_c07(ctx):
 
 
 def part_filter_c08(ctx):
-    return _filter_part(ctx, "filter-syntax", {1, 3, 4}, _c08_key)
+    return _filter_part(ctx, "filter-syntax", {1, 3, 4, 7}, _c08_key)
 
 
 # ------------------------------------------------------------------ C17 codec, C04 backoff
@@ -402,7 +404,9 @@ def run_engine(ctx, profile, n, steps):
 
 
 def engine_part(profile, nq, nt, steps, claim, nontrivial_keys):
+    profiles = profile
     def fn(ctx):
+        profile = profiles if isinstance(profiles, str) else (profiles[0] if QUICK(ctx) else profiles[1])
         p = Part("engine-" + profile)
         n = nq if QUICK(ctx) else nt
         try:
@@ -618,8 +622,20 @@ def part_fetch_diff(ctx):
     return p
 
 
-def part_stream(ctx):
-    """the production MessageStreamer against a scripted client (and through the StreamingPull RPC)"""
+def stream_part(own):
+    """the production MessageStreamer against a scripted client (and through the StreamingPull RPC);
+    [own] says which violation keys belong to the property being checked"""
+    def fn(ctx):
+        return _part_stream(ctx, own)
+    return fn
+
+
+STREAM_C11 = ("bound-messages", "bound-bytes", "stall", "head-of-line-limit", "fetch-spin", "harness-failed")
+STREAM_C03 = ("ack-not-completed",)
+STREAM_C01 = ("nack-completed",)
+
+
+def _part_stream(ctx, own):
     p = Part("stream-scenarios")
     d = os.path.join(ctx["work"], "stream")
     rc, out = harness(["stream", "-seed", str(ctx["seed"]), "-n", "24" if QUICK(ctx) else "240", "-out", d], timeout=3000)
@@ -637,11 +653,15 @@ def part_stream(ctx):
     for r in info["results"]:
         for v in r.get("violations") or []:
             key = v.split(":")[0]
+            if key not in own:
+                continue
             if key not in seen:
                 seen.add(key)
                 p.violation(key, "%s stream, seed %s, limits %d messages / %d bytes: %s" % (r["scenario"], r["seed"], r["max_messages"], r["max_bytes"], v),
                             dict(kind="stream-scenario", scenario=r))
     hol = info["head_of_line_probe"]
+    if "head-of-line-limit" not in own:
+        return p
     if 10 not in hol["sent_sizes"]:
         p.violation("head-of-line-limit", "limits 2 messages / 100 bytes, a 60-byte message held by the client, backlog of a 60-byte then a 10-byte message: sent sizes %s, "
                     "%.0f transactions per second while blocked" % (hol["sent_sizes"], hol["transactions_per_second_while_blocked"]), dict(kind="stream-hol", probe=hol))
@@ -805,7 +825,8 @@ T_FLOAT = "float assumption: Go's float64 evaluation of min*1.1^n stays within 2
 CHECKS = {
     "C01": dict(
         props=["C01"],
-        parts=[engine_part("delivery", 32, 600, 45, claim_c01, ["deliveries_created", "pull_nonempty", "redelivery", "nack_rescheduled"])],
+        parts=[engine_part("delivery", 32, 600, 45, claim_c01, ["deliveries_created", "pull_nonempty", "redelivery", "nack_rescheduled"]),
+               stream_part(STREAM_C01)],
         rule="generated histories (profile delivery: publish/pull/ack/modack/nack/seek/jobs/clock jumps) against the production gRPC server; every step is checked "
              "locally: model step from the implementation's pre-state vs response and full five-table post-state; non-trivial = deliveries created, non-empty pulls, redeliveries",
         assumptions=BUS_ASSUME),
@@ -895,7 +916,7 @@ CHECKS = {
                                   "removal of dead rows only, and convergence"]),
     "C11": dict(
         props=["C11"],
-        parts=[part_fetch_diff, part_stream],
+        parts=[part_fetch_diff, stream_part(STREAM_C11)],
         rule="(1) byte budget of one fetch: GetSubscriptionMessages(MaxMessages, MaxBytes, MaxBytesStrict) on databases with generated size mixes (2..400 bytes, limits below / at / above message sizes) "
              "against Streamer.fetch evaluated in Coq; (2) the production MessageStreamer (configured as the gRPC handler does) on a real database with a scripted client - limits 1..5 messages and "
              "20..100000 bytes, size mixes, stream acks, stream nacks (Nack list and zero deadline), external Acknowledge, publishes, waits; every fourth scenario through the real StreamingPull RPC; "
@@ -921,7 +942,10 @@ CHECKS = {
                      "concurrency of the streamer and the Go scheduler are exercised, not exhausted (the bound is proved on the window model and checked on the runs)"]),
     "C03": dict(
         props=["C03"],
-        parts=[engine_part("delivery", 32, 600, 45, claim_c03, ["ack_effective", "ack_noop", "modack_effective", "nack_rescheduled"])],
+        parts=[engine_part("delivery", 32, 600, 45, claim_c03, ["ack_effective", "ack_noop", "modack_effective", "nack_rescheduled"]),
+               stream_part(STREAM_C03),
+               engine_part(("bulk520", "bulk1100"), 1, 1, 30, claim_c03, ["ack_effective"])],
+        parallel=True,
         rule="same engine; owned projection: Acknowledge / ModifyAckDeadline / stream ack+nack steps (duplicate, stale, foreign, garbage ids; nack and deadline changes after ack); "
              "non-trivial = acks that completed something, no-op acks, effective deadline changes, nacks",
         assumptions=BUS_ASSUME),
@@ -932,7 +956,9 @@ CHECKS = {
         assumptions=BUS_ASSUME + ["concurrent creates of one name are serialised by the database (C12 race half is the unique index + serialisable transactions: assumed)"]),
     "C13": dict(
         props=["C13"],
-        parts=[engine_part("seek", 32, 600, 45, claim_c13, ["seek_effective", "snapshot_created"])],
+        parts=[engine_part("seek", 32, 600, 45, claim_c13, ["seek_effective", "snapshot_created"]),
+               engine_part(("bulk520", "bulk1100"), 1, 1, 30, claim_c13, ["seek_effective", "snapshot_created"])],
+        parallel=True,
         rule="engine profile seek: publish / pull / partial ack / snapshot / seek to exact publish instants, +-1 ns, past, future, and to own and sibling snapshots, repeated; "
              "non-trivial = seeks that changed rows, snapshots created",
         assumptions=BUS_ASSUME + ["snapshot_meaning assumes plain deliveries (no dead-letter forwards into the subscription)"]),
